@@ -26,7 +26,7 @@ _kernel("C20", "kernel_backoff", "backoff", ("async", "sync"),
         bounds="first 8 delays of exponential_backoff for every real factor; the constant RETRIES_BACKOFF_FACTOR checked concretely",
         outside="delays beyond the 8th")
 _kernel("C13", "kernel_flow_chunks", "flow_chunks", ("async", "sync"),
-        symbolic="data: any byte sequence of length <= 3; every reading of the stream/connection window: any integer >= 0; max frame size: any integer >= 1",
+        symbolic="data: any byte sequence of length <= 3; every reading of the stream/connection window: any integer (also negative: RFC 9113 6.9.2); max frame size: any integer >= 1",
         bounds="_send_stream_data with _wait_for_outgoing_flow inlined, loops unwound with an unwinding assertion; data <= 3 bytes, at most 2 consecutive zero-window polls",
         outside="longer data (the loop body is uniform in the remaining length)", also=("C03",))
 _kernel("C19", "kernel_host_header", "host_header", (None,),
